@@ -40,9 +40,93 @@ def sync_items_case(case):
     return dict(reproduced=bool(violated), violated=violated)
 
 
+def partner_collected_case(case):
+    """C20 (statement): after a partner object has been garbage-collected changes no longer propagate to it and raise nothing,
+    while every remaining link keeps converging -- also a link made afterwards; a partner that rejects a value with any
+    exception leaves the pair as it was, and later changes in both directions still propagate."""
+    import gc
+    from traits.api import HasTraits, Int, List, TraitError, push_exception_handler, pop_exception_handler
+    violated = []
+
+    class A(HasTraits):
+        t = Int()
+        l = List(Int)
+    raised = []
+    push_exception_handler(lambda obj, name, old, new: raised.append((name, new)), reraise_exceptions=False, main=True)
+    try:
+        a, b, c = A(), A(), A()
+        a.sync_trait("t", b)
+        a.sync_trait("t", c)
+        a.sync_trait("l", b)
+        a.sync_trait("l", c)
+        del c
+        gc.collect()
+        try:
+            a.t = 5
+            b.t = 6
+            a.l.append(4)
+            b.l.append(7)
+        except Exception as e:
+            violated.append("after one of two partners was collected a change raised %r" % (e,))
+        if raised:
+            violated.append("after one of two partners was collected a change handler raised for %r" % (raised,))
+        if (a.t, b.t) != (6, 6) or list(a.l) != list(b.l) or list(a.l) != [4, 7]:
+            violated.append("after one of two partners was collected the remaining pair diverged: t %r/%r, l %r/%r" % (a.t, b.t, list(a.l), list(b.l)))
+        del b
+        gc.collect()
+        del raised[:]
+        b2 = A()
+        a.sync_trait("t", b2)
+        a.t = 9
+        b2.t = 10
+        if (a.t, b2.t) != (10, 10) or raised:
+            violated.append("a link made after the last partner was collected does not converge: %r/%r, handler exceptions %r" % (a.t, b2.t, raised))
+        a.sync_trait("t", b2, remove=True)
+        a.t = 12
+        if b2.t != 10:
+            violated.append("after removing the link a change still propagated (b2.t == %r)" % b2.t)
+
+        # a partner whose validation raises something else than TraitError
+        class Picky(HasTraits):
+            t = Int()
+
+            def _t_changed(self, new):
+                pass
+        from traits.api import TraitType
+
+        class Unlucky(TraitType):
+            default_value = 0
+
+            def validate(self, object, name, value):
+                if value == 13:
+                    raise ValueError("unlucky")
+                return value
+
+        class Odd(HasTraits):
+            t = Unlucky()
+        del raised[:]
+        x, y = A(), Odd()
+        x.sync_trait("t", y)
+        try:
+            x.t = 13
+        except Exception as e:
+            violated.append("a partner refusing the value made the assignment raise %r" % (e,))
+        x.t = 14
+        y.t = 15
+        if (x.t, y.t) != (15, 15):
+            violated.append("after a partner refused a value with ValueError later changes no longer converge: %r/%r (handler exceptions %r)" % (x.t, y.t, raised))
+    finally:
+        pop_exception_handler()
+    return dict(reproduced=bool(violated), violated=violated[:6])
+
+
 def main():
     case = json.loads(sys.stdin.read())
-    out = {"sync_items": sync_items_case}[case["family"]](case)
+    out = {"sync_items": sync_items_case, "partner_collected": partner_collected_case}[case["family"]](case)
+    if case["family"] == "sync_items" and not out.get("reproduced"):
+        more = partner_collected_case(case)        # the rejection / collection scenarios of the same handlers
+        if more.get("reproduced"):
+            out = more
     print(json.dumps(out, default=repr))
 
 
